@@ -153,6 +153,46 @@ def finish(ctx):
             ctx.count("online:" + k, v)
         for key, what, detail in m.violations[:50]:
             ctx.violation(key, what, detail)
+    if ctx.shard == 0:
+        suite_under_monitor(ctx)
+
+
+def suite_under_monitor(ctx):
+    """the repository's own tests as one more workload of the online Rule.parse monitor (DESIGN 3.6)"""
+    import json
+    import os
+    import subprocess
+    import sys
+    import tempfile
+
+    import utype
+
+    repo = os.path.dirname(os.path.dirname(os.path.realpath(utype.__file__)))
+    fd, out = tempfile.mkstemp(prefix="vmon-suite-", suffix=".json")
+    os.close(fd)
+    try:
+        p = subprocess.run([sys.executable, "-m", "pytest", "-q", "-x", "-p", "no:cacheprovider", "-p", "vmon.pytest_plugin", "tests"], cwd=repo,
+                           env=dict(os.environ, VMON_PLUGIN_OUT=out, UTYPE_VERIF_MONITORS="1"), capture_output=True, text=True, timeout=600)
+        try:
+            with open(out) as f:
+                r = json.load(f)
+        except Exception:
+            ctx.count("suite:not-run")
+            return
+        ctx.count("suite:tests", r["tests_collected"])
+        ctx.count("suite:tests_failed", r["tests_failed"])
+        for k, v in r["counters"].items():
+            ctx.count("suite:online:" + k, v)
+        if r["tests_failed"] == 0:  # a failing suite is somebody else's alarm; the monitor's verdicts on it are not used
+            for key, what, detail in r["violations"][:50]:
+                ctx.violation(key.replace("C01/online/", "C01/online-in-test-suite/"), what, dict(detail, workload="repository test suite"))
+    except subprocess.TimeoutExpired:
+        ctx.count("suite:timeout")
+    finally:
+        try:
+            os.unlink(out)
+        except OSError:
+            pass
 
 
 def conclusive(m, tier):
